@@ -117,7 +117,7 @@ def oracle(case, impl):
         if after is None:
             bad.append('unparsable output %r' % out); continue
         wall = norm_wall(int(t[1]))
-        wall_ok = wall // 1000 + 4102 < 2 ** 32
+        wall_ok = True     # no exclusion: beyond the representable range (year 2159) a call must FAIL, not wrap or panic (D16)
         if toks[0] == 'ok':
             r = int(toks[1])
             if wall_ok:
